@@ -1253,3 +1253,15 @@ package lorawan
 //@   loop 0: invariant out-fresh: out == nil || fresh(out)
 //@   loop 0: invariant done: forall k int :: 0 <= k && k <= rangeindex ==> le16(out[2*k], out[2*k+1]) == chmask16(p.ChannelMasks[k])
 //@   loop 0: decreases len(p.ChannelMasks) - rangeindex
+//@ func lemmaC11_sql_NetID
+//@   props C11
+//@   inlines (*NetID).Scan (NetID).Value
+//@ func lemmaC11_sql_DevAddr
+//@   props C11
+//@   inlines (*DevAddr).Scan (DevAddr).Value
+//@ func lemmaC11_sql_EUI64
+//@   props C11
+//@   inlines (*EUI64).Scan (EUI64).Value
+//@ func lemmaC11_sql_AES128Key
+//@   props C11
+//@   inlines (*AES128Key).Scan (AES128Key).Value
